@@ -599,3 +599,40 @@ func H_C05_literals() {
 	verif.Assert(verif.Eq(got, want), "window")
 	verif.Reach("end")
 }
+
+// H_C05_order_ints: sort keys of Go integer types (tables built in Go, not
+// decoded from JSON) order by their exact value, also above 2^53 where
+// float64 no longer tells neighbours apart.
+func H_C05_order_ints() {
+	kind := verif.Choose("kind", 3)
+	base := []int64{1 << 53, math.MaxInt64 - 3, 5}[verif.Choose("base", 3)]
+	perm := [][]int64{{0, 1, 2, 3}, {1, 0, 3, 2}, {3, 2, 1, 0}, {2, 0, 3, 1}}[verif.Choose("input-order", 4)]
+	d := verif.Choose("dir", 3)
+	arr := make([]any, 4)
+	for i, off := range perm {
+		var key any
+		switch kind {
+		case 0:
+			key = base + off
+		case 1:
+			key = int(base + off)
+		case 2:
+			key = uint64(base + off)
+		}
+		arr[i] = Map{"id": key, "n": float64(off)}
+	}
+	want := []any{Map{"n": float64(0)}, Map{"n": float64(1)}, Map{"n": float64(2)}, Map{"n": float64(3)}}
+	if d == 2 {
+		want = []any{Map{"n": float64(3)}, Map{"n": float64(2)}, Map{"n": float64(1)}, Map{"n": float64(0)}}
+	}
+	got2, ok := runQuery(Map{"t": arr}, "SELECT id, n FROM t ORDER BY id"+dirs[d])
+	if !ok {
+		return
+	}
+	var ns []any
+	for _, g := range got2 {
+		ns = append(ns, Map{"n": g.(Map)["n"]})
+	}
+	verif.Assert(verif.Eq(ns, want), "sorted-by-exact-integer-value")
+	verif.Reach("end")
+}
